@@ -13,46 +13,6 @@ import Mathlib.Data.List.Nodup
 namespace OxiModel.C18
 open OxiModel OxiModel.DeProofs OxiModel.Spec
 
-/-! ### cutting and comparing concatenations -/
-
-theorem exists_pieces {β} : ∀ (lens : List Nat) (X : List β), X.length = lens.sum →
-    ∃ ps : List (List β), ps.map List.length = lens ∧ ps.flatten = X := by
-  intro lens
-  induction lens with
-  | nil =>
-    intro X h
-    refine ⟨[], rfl, ?_⟩
-    simp only [List.sum_nil] at h
-    simp [List.eq_nil_of_length_eq_zero h]
-  | cons n ns ih =>
-    intro X h
-    simp only [List.sum_cons] at h
-    obtain ⟨ps, hps, hfl⟩ := ih (X.drop n) (by rw [List.length_drop]; omega)
-    refine ⟨X.take n :: ps, ?_, ?_⟩
-    · simp only [List.map_cons, List.length_take, hps]
-      congr 1
-      omega
-    · simp only [List.flatten_cons, hfl, List.take_append_drop]
-
-theorem flatten_inj {β} : ∀ (A B : List (List β)), A.map List.length = B.map List.length →
-    A.flatten = B.flatten → A = B := by
-  intro A
-  induction A with
-  | nil =>
-    intro B hl _
-    cases B with
-    | nil => rfl
-    | cons b bs => simp at hl
-  | cons a as ih =>
-    intro B hl hf
-    cases B with
-    | nil => simp at hl
-    | cons b bs =>
-      simp only [List.map_cons, List.cons.injEq] at hl
-      simp only [List.flatten_cons] at hf
-      obtain ⟨h1, h2⟩ := List.append_inj hf hl.1
-      rw [h1, ih bs hl.2 h2]
-
 /-! ### the lines of an interlaced image, tagged (pass, row) -/
 
 /-- pixels in a line of pass `p` -/
@@ -244,27 +204,6 @@ theorem units_onto (w h b : Nat) (hw : 1 ≤ w) (hh : 1 ≤ h) (hb : 0 < b) (Us 
   · exact congrArg Subtype.val hv
 
 /-! ### from the machine to the image functions -/
-
-theorem sum_lengths_const {β} (n : Nat) : ∀ ps : List (List β), (∀ p ∈ ps, p.length = n) →
-    (ps.map List.length).sum = ps.length * n := by
-  intro ps
-  induction ps with
-  | nil => intro _; simp
-  | cons a as ih =>
-    intro h
-    simp only [List.map_cons, List.sum_cons, List.length_cons]
-    rw [ih (fun p hp => h p (List.mem_cons_of_mem _ hp)), h a List.mem_cons_self, Nat.succ_mul]
-    omega
-
-/-- cutting a concatenation of equally long pieces at that length gives the pieces back -/
-theorem chunksExact_flatten {β} (n : Nat) (hn : 0 < n) (ps : List (List β)) (hps : ∀ p ∈ ps, p.length = n) :
-    chunksExact n ps.flatten = ps := by
-  have hlen : ps.flatten.length = ps.length * n := by
-    rw [List.length_flatten, sum_lengths_const n ps hps]
-  obtain ⟨hfl, hpl⟩ := flatten_chunksExact n hn ps.length ps.flatten hlen
-  apply flatten_inj _ _ ?_ hfl
-  rw [List.map_congr_left (g := fun _ => n) hpl, List.map_congr_left (g := fun _ => n) hps, List.map_const',
-    List.map_const', chunksExact_length n hn ps.length _ hlen]
 
 /-- the iterator's lines carry the table's pixel counts and the data's pieces -/
 theorem splitLines_zip {γ} (g : Bytes → Nat → γ) : ∀ (specs : List (Nat × Option Nat × Nat)) (pieces : List Bytes),
